@@ -10,6 +10,8 @@ MANIFEST_ENTRY = {
     "text": "Unbounded proof (all file sizes, all segment sizes, every k in 1..256 by exhaustive case split) that the real uploader-side and downloader-side geometry functions agree on segment count, tail size, padded tail and block sizes, that the segments sum to the file size, and that delivered ranges are trimmed exactly; share layout: the offset table written by WriteBucketProxy / WriteBucketProxy_v2._create_offsets is read back to the same six offsets by ReadBucketProxy._parse_offsets for every block size, data size and hash-area size, the sections follow each other without gap or overlap, the allocated size covers the length-prefixed extension block, and only sizes that do not fit the 4-byte (8-byte) fields are refused; partial: the Deferred pipeline, zfec, AES and hash-tree construction are not under contract.",
     "note": "Partial claim (DESIGN 6 C01 'Not decided'). k,N <= 256 is zfec's limit enforced by hashutil._convergence_hasher_tag. Trusted: pyvc engine, z3; pyutil.mathutil is NOT trusted (its source is executed symbolically).",
 }
+MANIFEST_ENTRY["text"] += " Bounded end-to-end stand-in (run-time contract, never counted as proved): contracts/immutable_grid.py encodes seeded files with the real Encoder, serves the shares from in-memory servers with per-share faults (missing, bit-flipped, truncated, header-truncated, another file's, another encoding's, dead or dying server, slow server) and checks every ImmutableFileNode.read (whole, ranged, concurrent, paused, next to a cancelled one, after failed reads) against the plaintext. Bounded end-to-end stand-in (run-time contract, never counted as proved): contracts/grid_upload.py runs the real Uploader, server selector, Encoder, checker/verifier and repairer against real StorageServers on disk (contracts/real_grid.py) with read-only, full and failing servers and pre-existing shares, and compares results with ground truth read from the disks and with a reference encoding."
+MANIFEST_ENTRY["technique"] = "contract-based deductive verification: pre/postconditions on the real functions, VCs generated from the AST, discharged by z3/cvc5; plus bounded end-to-end run-time scenario contracts on an in-process grid of the real components (stand-in, labelled bounded)"
 EXPLANATION = "Relational contract over Encoder._got_all_encoding_parameters and DownloadNode._calculate_sizes executed on the same symbolic (size, k, N, segsize)."
 TRUSTED = ["zfec.Encoder/Decoder constructors are opaque handles (zfec is external C code)"]
 ASSUMPTIONS = ["termination not proved"]
